@@ -31,6 +31,10 @@ def lib(*names):
 
 
 def _val(v):
+    if isinstance(v, OptVal):
+        # callers that can fail on None (subscript, len, iteration,
+        # arithmetic, comparison) emit the not-None obligation themselves
+        v = v.value
     return v.read() if isinstance(v, Cell) else v
 
 
@@ -53,13 +57,11 @@ _PYOPS = {ast.Add: operator.add, ast.Sub: operator.sub,
 
 def binop(I, op, a, b):
     a0, b0 = a, b
-    a, b = _val(a), _val(b)
     if isinstance(a, OptVal):
         I.oblige(f"not_None@{I.cur_line}", a.present, "safety")
-        a = a.value
     if isinstance(b, OptVal):
         I.oblige(f"not_None@{I.cur_line}", b.present, "safety")
-        b = b.value
+    a, b = _val(a), _val(b)
     ty = type(op)
     if isinstance(a, Opaque) or isinstance(b, Opaque):
         return Opaque("arith")
@@ -172,7 +174,10 @@ def _res_elem(ty, ea, eb):
 def unop(I, op, v):
     v = _val(v)
     if isinstance(v, SymSeq):
-        return SymSeq(v.length, lambda i: unop(I, op, v.get(i)), v.elem)
+        out = SymSeq(v.length, lambda i: unop(I, op, v.get(i)), v.elem)
+        if isinstance(op, ast.Invert) and hasattr(v, "isin"):
+            out.not_isin = v.isin
+        return out
     if isinstance(op, ast.USub):
         if isinstance(v, (int, float)):
             return -v
@@ -198,7 +203,10 @@ _CMP = {ast.Lt: operator.lt, ast.LtE: operator.le, ast.Gt: operator.gt,
 
 def compare(I, op, a, b):
     ty = type(op)
-    a, b = _val(a), _val(b)
+    if not isinstance(a, OptVal):
+        a = _val(a)
+    if not isinstance(b, OptVal):
+        b = _val(b)
     if ty in (ast.Is, ast.IsNot):
         if a is None or b is None:
             r = veq(a, b)
@@ -223,10 +231,10 @@ def compare(I, op, a, b):
         return r
     if isinstance(a, OptVal):
         I.oblige(f"not_None@{I.cur_line}", a.present, "safety")
-        a = a.value
+        a = _val(a)
     if isinstance(b, OptVal):
         I.oblige(f"not_None@{I.cur_line}", b.present, "safety")
-        b = b.value
+        b = _val(b)
     if isinstance(a, SymSeq) or isinstance(b, SymSeq):
         return seq_compare(I, ty, a, b)
     if isinstance(a, (int, float)) and isinstance(b, (int, float)):
@@ -358,9 +366,14 @@ def load_subscript(I, base, slice_node, env):
 
 def getitem(I, base, key):
     key = _val(key) if not isinstance(key, slice) else key
+    if isinstance(base, _SliceMaker):
+        return key
     if isinstance(base, OptVal):
         I.oblige(f"not_None@{I.cur_line}", base.present, "safety")
         base = base.value
+    if isinstance(key, OptVal):
+        I.oblige(f"index_not_None@{I.cur_line}", key.present, "safety")
+        key = _val(key.value)
     if isinstance(base, Cell):
         val = base.read()
         if base.kind == "row":
@@ -475,7 +488,41 @@ def struct_take(I, s, idx):
 
 
 def mask_select(I, s, mask):
-    raise Unsupported("boolean-mask indexing (needs a counting contract)")
+    """a[mask]: R[i] = a[src(i)] with src strictly increasing over exactly
+    the True positions; dst is the inverse map on True positions.  The
+    length is COUNT(mask); for the pattern arange(n)[~isin(arange(n), b)]
+    with b strictly increasing inside [0, n) the count is n - len(b)
+    (library-level counting fact, conformance-tested)."""
+    I.oblige(f"mask_len@{I.cur_line}",
+             to_int(mask.length) == to_int(s.length), "safety")
+    n = to_int(s.length)
+    nm = I.namer.fresh
+    cnt = I.fresh_const("mask_count", z3.IntSort())
+    src = z3.Function(nm("mask_src"), z3.IntSort(), z3.IntSort())
+    dst = z3.Function(nm("mask_dst"), z3.IntSort(), z3.IntSort())
+    I.assume(z3.And(0 <= cnt, cnt <= n))
+    i = z3.Int(nm("q_i"))
+    i2 = z3.Int(nm("q_i2"))
+    v = z3.Int(nm("q_v"))
+    I.assume(z3.ForAll([i], z3.Implies(z3.And(0 <= i, i < cnt), z3.And(
+        0 <= src(i), src(i) < n, mask.get(src(i)), dst(src(i)) == i))))
+    I.assume(z3.ForAll([i, i2], z3.Implies(
+        z3.And(0 <= i, i < i2, i2 < cnt), src(i) < src(i2))))
+    I.assume(z3.ForAll([v], z3.Implies(
+        z3.And(0 <= v, v < n, mask.get(v)),
+        z3.And(0 <= dst(v), dst(v) < cnt, src(dst(v)) == v))))
+    tag = mask.__dict__.get("not_isin")
+    if tag is not None:
+        b = tag["b"]
+        # counting fact, under its side conditions
+        k = z3.Int(nm("q_k"))
+        side = z3.And(
+            sorted_seq(I, b, strict=True),
+            forall_idx(I, b.length, lambda q: z3.And(0 <= b.get(q),
+                                                     b.get(q) < n)),
+            forall_idx(I, n, lambda q: tag["a"].get(q) == q))
+        I.assume(z3.Implies(side, cnt == n - to_int(b.length)))
+    return SymSeq(cnt, lambda q: s.get(src(to_int(q))), s.elem)
 
 
 def forall_idx(I, n, body):
@@ -654,6 +701,8 @@ class ConcreteIter:
 
 
 def as_seq(I, it):
+    if isinstance(it, OptVal):
+        I.oblige(f"iter_not_None@{I.cur_line}", it.present, "safety")
     v = _val(it)
     if isinstance(v, SymSeq):
         return v
@@ -1138,14 +1187,14 @@ def _str_split(I, b, *a):
 # --------------------------------------------------------------- builtins
 @lib("builtins.len")
 def _len(I, x):
+    if isinstance(x, OptVal):
+        I.oblige(f"not_None@{I.cur_line}", x.present, "safety")
+        return _len(I, x.value)
     x = _val(x)
     if isinstance(x, (SymSeq, SymStruct)):
         return x.length
     if isinstance(x, (list, tuple, dict, str, set)):
         return len(x)
-    if isinstance(x, OptVal):
-        I.oblige(f"not_None@{I.cur_line}", x.present, "safety")
-        return _len(I, x.value)
     if isinstance(x, SymRange):
         return x.count()
     raise Unsupported(f"len of {x!r}")
@@ -1501,6 +1550,12 @@ def _searchsorted(I, a, v, side="left", sorter=None):
             I.assume(z3.ForAll([k, i], z3.Implies(
                 z3.And(rng, 0 <= i, i < n),
                 (i < f(k)) == (a.get(i) <= v.get(k)))))
+        # monotone in the needle (a consequence of the two facts above for
+        # a sorted haystack; stated to spare the solver the instantiation)
+        k2 = z3.Int(I.namer.fresh("q_k2"))
+        I.assume(z3.ForAll([k, k2], z3.Implies(
+            z3.And(rng, 0 <= k2, k2 < to_int(v.length),
+                   v.get(k) <= v.get(k2)), f(k) <= f(k2))))
         return Cell("arr", SymSeq(v.length, lambda q: f(to_int(q)), "Int"))
     r = I.fresh_const("ss", z3.IntSort())
     I.assume(z3.And(0 <= r, r <= n))
@@ -1684,7 +1739,7 @@ def _spec_strictly_increasing(I, seq):
 
 @lib("spec.row_eq")
 def _spec_row_eq(I, a, b):
-    return bz(veq(_val(a), _val(b)))
+    return bz(veq(a, b))
 
 
 @lib("spec.isnan")
@@ -2041,3 +2096,207 @@ def _spec_from_uh(I, p):
 @lib("multiprocessing.Pool")
 def _mp_pool(I, *a, **k):
     return PoolVal()
+
+
+# --------------------------------------------------- C04: insert & friends
+def _forall2(I, n1, n2, body):
+    a = z3.Int(I.namer.fresh("q_a"))
+    b = z3.Int(I.namer.fresh("q_b"))
+    return z3.ForAll([a, b], z3.Implies(
+        z3.And(0 <= a, a < to_int(n1), 0 <= b, b < to_int(n2)),
+        bz(body(a, b))))
+
+
+@lib("numpy.argsort")
+def _argsort(I, a, order=None, **kw):
+    a = _val(a)
+    if isinstance(a, SymStruct):
+        if not isinstance(order, str):
+            raise Unsupported("argsort of a struct without order")
+        key = a.fields[order]
+    elif isinstance(a, SymSeq):
+        key = a
+    else:
+        raise Unsupported("argsort of non-array")
+    n = to_int(key.length)
+    perm = z3.Function(I.namer.fresh("argsort"), z3.IntSort(), z3.IntSort())
+    inv = z3.Function(I.namer.fresh("argsort_inv"), z3.IntSort(),
+                      z3.IntSort())
+    I.assume(forall_idx(I, n, lambda i: z3.And(
+        0 <= perm(i), perm(i) < n, inv(perm(i)) == i)))
+    I.assume(forall_idx(I, n, lambda i: z3.And(
+        0 <= inv(i), inv(i) < n, perm(inv(i)) == i)))
+    I.assume(sorted_seq(I, SymSeq(key.length,
+                                  lambda i: key.get(perm(to_int(i))),
+                                  key.elem)))
+    I.ghost["last_argsort"] = {"perm": perm, "inv": inv, "n": n}
+    return Cell("arr", SymSeq(key.length, lambda i: perm(to_int(i)), "Int"))
+
+
+def _insert_maps(I, m, r, idx):
+    """position maps of np.insert(a, idx, vals) for non-decreasing idx with
+    0 <= idx[k] <= m:  new k -> idx[k]+k ; old j -> j+cnt(j) where
+    k < cnt(j) <=> idx[k] <= j ; the two images partition [0, m+r)."""
+    nm = I.namer.fresh
+    cnt = z3.Function(nm("ins_cnt"), z3.IntSort(), z3.IntSort())
+    isnew = z3.Function(nm("ins_isnew"), z3.IntSort(), z3.BoolSort())
+    srcnew = z3.Function(nm("ins_srcnew"), z3.IntSort(), z3.IntSort())
+    srcold = z3.Function(nm("ins_srcold"), z3.IntSort(), z3.IntSort())
+
+    def posnew(k):
+        return idx.get(k) + to_int(k)
+
+    def posold(j):
+        return to_int(j) + cnt(to_int(j))
+    j = z3.Int(nm("q_j"))
+    k = z3.Int(nm("q_k"))
+    p = z3.Int(nm("q_p"))
+    jr = z3.And(0 <= j, j < m)
+    kr = z3.And(0 <= k, k < r)
+    I.assume(z3.ForAll([j], z3.Implies(jr, z3.And(0 <= cnt(j),
+                                                   cnt(j) <= r))))
+    I.assume(z3.ForAll([j, k], z3.Implies(
+        z3.And(jr, kr), (k < cnt(j)) == (idx.get(k) <= j))))
+    # cnt is monotone (derived; stated to spare the solver an induction)
+    j2 = z3.Int(nm("q_j2"))
+    I.assume(z3.ForAll([j, j2], z3.Implies(
+        z3.And(0 <= j, j <= j2, j2 < m), cnt(j) <= cnt(j2))))
+    # inverse maps / partition of [0, m+r)
+    I.assume(z3.ForAll([k], z3.Implies(kr, z3.And(
+        isnew(posnew(k)), srcnew(posnew(k)) == k))))
+    I.assume(z3.ForAll([j], z3.Implies(jr, z3.And(
+        z3.Not(isnew(posold(j))), srcold(posold(j)) == j))))
+    I.assume(z3.ForAll([p], z3.Implies(z3.And(0 <= p, p < m + r), z3.If(
+        isnew(p),
+        z3.And(0 <= srcnew(p), srcnew(p) < r, posnew(srcnew(p)) == p),
+        z3.And(0 <= srcold(p), srcold(p) < m, posold(srcold(p)) == p)))))
+    return {"m": m, "r": r, "posnew": posnew, "posold": posold,
+            "isnew": isnew, "srcnew": srcnew, "srcold": srcold, "cnt": cnt}
+
+
+@lib("numpy.insert")
+def _np_insert(I, a, idx, vals, axis=None):
+    a, idx, vals = _val(a), _val(idx), _val(vals)
+    if not isinstance(idx, SymSeq):
+        raise Unsupported("np.insert with a scalar index")
+    m = to_int(a.length)
+    r = to_int(idx.length)
+    site = I.cur_line
+    I.oblige(f"insert_len@{site}", to_int(vals.length) == r, "lib_requires")
+    I.oblige(f"insert_idx_sorted@{site}", sorted_seq(I, idx),
+             "lib_requires")
+    I.oblige(f"insert_idx_range@{site}", forall_idx(
+        I, r, lambda k: z3.And(0 <= idx.get(k), idx.get(k) <= m)),
+        "lib_requires")
+    # the position maps are a function of (idx, m) only: two inserts driven
+    # by the same index vector into arrays of the same length share them
+    cache = I.ghost.setdefault("insert_cache", {})
+    ckey = id(idx)
+    if ckey in cache:
+        maps = cache[ckey][0]
+        I.oblige(f"insert_same_length@{site}", m == maps["m"],
+                 "lib_requires")
+    else:
+        maps = _insert_maps(I, m, r, idx)
+        cache[ckey] = (maps, idx)
+    I.ghost["last_insert"] = maps
+    I.ghost.setdefault("inserts", []).append(maps)
+    isnew, srcnew, srcold = maps["isnew"], maps["srcnew"], maps["srcold"]
+    n = m + r
+
+    def mk(qa, qv):
+        return SymSeq(n, lambda p: ite(isnew(to_int(p)),
+                                       qv.get(srcnew(to_int(p))),
+                                       qa.get(srcold(to_int(p)))), qa.elem)
+    if isinstance(a, SymStruct):
+        if not isinstance(vals, SymStruct):
+            raise Unsupported("np.insert struct/non-struct")
+        return Cell("arr", SymStruct(n, {f: mk(q, vals.fields[f])
+                                         for f, q in a.fields.items()}))
+    return Cell("arr", mk(a, vals))
+
+
+class _SliceMaker:
+    pass
+
+
+LIB["numpy.s_"] = _SliceMaker()
+
+
+def _getitem_s(I, base, key):
+    return key
+
+
+@lib("numpy.delete")
+def _np_delete(I, a, obj, **kw):
+    a = _val(a)
+    if not isinstance(obj, slice):
+        raise Unsupported("np.delete with non-slice")
+    lo, hi = slice_bounds(I, obj, a.length)
+    n = to_int(a.length)
+    cut = _minus_nonneg(hi, lo)
+    newlen = n - to_int(cut)
+    return Cell("arr", SymSeq(newlen, lambda i: ite(
+        to_int(i) < to_int(lo), a.get(i), a.get(to_int(i) + to_int(cut))),
+        a.elem))
+
+
+@lib("numpy.empty", "numpy.zeros", "numpy.ones")
+def _np_empty(I, shape, dtype=None, **kw):
+    if isinstance(shape, (tuple, list)):
+        if len(shape) != 1:
+            raise Unsupported("multi-dimensional allocation")
+        shape = shape[0]
+    elem = "Int" if dtype is not None and isinstance(dtype, E.LibFunc) and \
+        dtype.name == "builtins.int" else "Real"
+    f = z3.Function(I.namer.fresh("alloc"), z3.IntSort(),
+                    z3.IntSort() if elem == "Int" else z3.RealSort())
+    return Cell("arr", SymSeq(shape, lambda i: f(to_int(i)), elem))
+
+
+@method("seq", "max")
+def _seq_max(I, b, **kw):
+    return seq_extreme(I, _val(b), True)
+
+
+@method("seq", "min")
+def _seq_min(I, b, **kw):
+    return seq_extreme(I, _val(b), False)
+
+
+@lib("numpy.isin", "numpy.in1d")
+def _np_isin(I, a, b, **kw):
+    a, b = _val(a), _val(b)
+    mem = z3.Function(I.namer.fresh("isin"), z3.IntSort(), z3.BoolSort())
+    wit = z3.Function(I.namer.fresh("isin_wit"), z3.IntSort(), z3.IntSort())
+    nb = to_int(b.length)
+    I.assume(forall_idx(I, nb, lambda k: mem(b.get(k))))
+    v = z3.Int(I.namer.fresh("q_v"))
+    I.assume(z3.ForAll([v], z3.Implies(mem(v), z3.And(
+        0 <= wit(v), wit(v) < nb, b.get(wit(v)) == v))))
+    out = SymSeq(a.length, lambda i: mem(a.get(i)), "Bool")
+    out.isin = {"a": a, "b": b}
+    return Cell("arr", out)
+
+
+@lib("spec.lemma_unique_enum")
+def _lemma_unique_enum(I, h):
+    """Lemma (Lean: lemmas/Lib.lean unique_complement_enum): a strictly
+    increasing h : [0,m) -> [0,m+r) whose image avoids the image of the
+    strictly increasing posnew : [0,r) -> [0,m+r) equals posold, the
+    strictly increasing enumeration of the complement.  Instantiated for
+    the position maps of the most recent np.insert on this path."""
+    maps = I.ghost.get("last_insert")
+    if maps is None:
+        raise SpecError("lemma_unique_enum: no np.insert on this path")
+    h = _val(h)
+    m, r = maps["m"], maps["r"]
+    posold, posnew = maps["posold"], maps["posnew"]
+    ante = z3.And(
+        to_int(h.length) == m,
+        sorted_seq(I, h, strict=True),
+        forall_idx(I, m, lambda j: z3.And(0 <= h.get(j), h.get(j) < m + r)),
+        _forall2(I, m, r, lambda j, k: h.get(j) != posnew(k)))
+    cons = forall_idx(I, m, lambda j: h.get(j) == posold(j))
+    I.stats.lib_used.add("lemma:unique_complement_enum")
+    return z3.Implies(ante, cons)
